@@ -25,6 +25,7 @@ structure MachineOK (c : Ctx) (fm : List FirstSet) (m : Machine) : Prop where
     ∃ t', (⟨s, t', X⟩ : Transition) ∈ m.transitions ∧
       ∀ y ∈ transitionItems c (m.states.getD s []) X, y ∈ m.states.getD t' []
   hasKernel : ∀ t ∈ m.transitions, ∃ y ∈ m.states.getD t.to [], 1 ≤ y.dot
+  tnodup : m.transitions.Nodup
   zcore : ∀ y ∈ m.states.getD m.start [], CReach c fm (fun p => p = (c.numRules, 0)) (coreOf y)
   tcore : ∀ t ∈ m.transitions, ∀ y ∈ m.states.getD t.to [],
     CReach c fm (fun p => ∃ x ∈ transitionItems c (m.states.getD t.frm []) t.sym, coreOf x = p) (coreOf y)
@@ -47,6 +48,7 @@ theorem machineOK_of_builder {c : Ctx} {fm : List FirstSet} {b : Builder} {m : M
       func := ?_
       done := ?_
       hasKernel := ?_
+      tnodup := Oset.Sorted.nodup iso.tsorted
       zcore := by rw [iso.start, iso.state 0 inv.nonempty]; exact inv.zcore
       tcore := ?_ }
   · intro s hs'
